@@ -296,6 +296,14 @@ func (c *Client) Listen() error {
 
 				break
 			}
+			if n > len(buf) {
+				// A stream transport can hand over a frame that is longer than
+				// any datagram (a header announcing up to 65535 bytes): it does
+				// not fit the buffer, so it is discarded instead of sliced.
+				c.log.Debugf("Discarding inbound message of %d bytes: larger than the %d-byte buffer", n, len(buf))
+
+				continue
+			}
 
 			// A datagram that cannot be handled (malformed STUN, a request, a
 			// non-STUN datagram from the server address) is discarded; it must
